@@ -12,7 +12,11 @@ SPEC_DRIVER_MODULES = ["BioCantor.Driver.Main", "BioCantor.Driver.SpecBins"]
 GEN_NEEDS = ["bins", "CoordFmt"]
 RULE = ("exhaustive band of +-2 around every multiple of 2^17, 2^20, 2^23, 2^26, 2^29 (first 3 and last 2 multiples "
         "below 2^29 per level, plus 2^29 itself) for both coordinates, both conventions, one=True/False, and "
-        "(query, interval) containment/overlap pairs drawn from the same band points; then random pairs up to 2^30. "
+        "(query, interval) containment/overlap pairs drawn from the same band points; then random pairs up to 2^30; the bin "
+        "stored at construction by every interval class (also on objects built on a sequence chunk starting at 2^17, "
+        "3*2^17+17, 2^20-500, 2^23: the bin is that of the chromosome span) and end-to-end strict/relaxed position "
+        "queries on collections without parent and on collections living on a sequence chunk whose bounds / members reach "
+        "beyond the chunk (bqueryk). "
         "non-trivial = in-range arguments (0 <= start-off, stop < 2^29) with start <= stop; distinct = distinct lines")
 EXHAUSTIVE_NOTE = "the boundary band described in `rule` (complete cross product of the band points)"
 TRUSTED = ["Gen.bins is regenerated from util/bins.py by tools/translate.py on every run (theorems are about it)",
@@ -54,6 +58,8 @@ def impl(line):
             return f"ok one {_objbin(t[1], int(t[2]), int(t[3]))}"
         if t[0] == "bquery":
             return _bquery(t)
+        if t[0] == "bqueryk":
+            return _bquery(t[:1] + t[5:], chunk=(int(t[1]), int(t[2])), bounds=(int(t[3]), int(t[4])))
         raise KeyError(t[0])
     return guarded(go)
 
@@ -74,9 +80,33 @@ def _classes():
     return _CLS
 
 
+def _chunk(cs, ce):
+    _classes()
+    from inscripta.biocantor.io.parser import seq_chunk_to_parent
+    return seq_chunk_to_parent("A" * (ce - cs), "chr", cs, ce)
+
+
 def _objbin(kind, s, e):
     c = _classes()
     P = c["plus"]
+    if "@" in kind:          # the object is built on a sequence chunk [cs, ce): its bin is still that of its chromosome span
+        kind, win = kind.split("@")
+        par = _chunk(*map(int, win.split(":")))
+        if kind == "tx":
+            return c["tx"]([s], [e], P, parent_or_seq_chunk_parent=par).bin
+        if kind == "feat":
+            return c["feat"]([s], [e], P, parent_or_seq_chunk_parent=par).bin
+        if kind == "gene":
+            m = (s + e) // 2
+            return c["gene"](transcripts=[c["tx"]([s], [max(s, m)], P, parent_or_seq_chunk_parent=par),
+                                          c["tx"]([min(m, e)], [e], P, parent_or_seq_chunk_parent=par)],
+                             parent_or_seq_chunk_parent=par).bin
+        if kind == "fcoll":
+            m = (s + e) // 2
+            return c["fcoll"](feature_intervals=[c["feat"]([s], [max(s, m)], P, parent_or_seq_chunk_parent=par),
+                                                 c["feat"]([min(m, e)], [e], P, parent_or_seq_chunk_parent=par)],
+                              parent_or_seq_chunk_parent=par).bin
+        raise KeyError(kind)
     if kind == "tx":
         return c["tx"]([s], [e], P).bin
     if kind == "feat":
@@ -96,9 +126,11 @@ def _objbin(kind, s, e):
     raise KeyError(kind)
 
 
-def _bquery(t):
+def _bquery(t, chunk=None, bounds=None):
     c = _classes()
     P = c["plus"]
+    par = _chunk(*chunk) if chunk else None
+    kw = dict(parent_or_seq_chunk_parent=par) if par else {}
     cw, qs, qe, n = t[1] == "1", int(t[2]), int(t[3]), int(t[4])
     i = 5
     genes, fcs, order = [], [], []
@@ -108,10 +140,14 @@ def _bquery(t):
         spans = [(int(t[i + 2 * j]), int(t[i + 2 * j + 1])) for j in range(k)]
         i += 2 * k
         if kind == "g":
-            genes.append(c["gene"](transcripts=[c["tx"]([s], [e], P) for s, e in spans], gene_id=f"c{ci}"))
+            genes.append(c["gene"](transcripts=[c["tx"]([s], [e], P, **kw) for s, e in spans], gene_id=f"c{ci}", **kw))
         else:
-            fcs.append(c["fcoll"](feature_intervals=[c["feat"]([s], [e], P) for s, e in spans], feature_collection_id=f"c{ci}"))
-    coll = c["acoll"](genes=genes, feature_collections=fcs, start=0, end=2 ** 31)
+            fcs.append(c["fcoll"](feature_intervals=[c["feat"]([s], [e], P, **kw) for s, e in spans],
+                                  feature_collection_id=f"c{ci}", **kw))
+    if par:     # a collection whose bounds may reach beyond the sequence chunk it has sequence for
+        coll = c["acoll"](genes=genes, feature_collections=fcs, start=bounds[0], end=bounds[1], **kw)
+    else:
+        coll = c["acoll"](genes=genes, feature_collections=fcs, start=0, end=2 ** 31)
     res = coll.query_by_position(qs, qe, completely_within=cw)
     kept = sorted(int((getattr(ch, "gene_id", None) or getattr(ch, "feature_collection_id", None))[1:])
                   for ch in res.iter_children())
@@ -120,7 +156,7 @@ def _bquery(t):
 
 def nontrivial(line, ans):
     t = line.split()
-    if t[0] in ("objbin", "bquery"):
+    if t[0] in ("objbin", "bquery", "bqueryk"):
         return line if ans.startswith("ok") else None
     if t[0] == "bins":
         s, e, off = int(t[1]), int(t[2]), (1 if t[3] == "gff" else 0)
@@ -185,6 +221,49 @@ def cases(run):
         for s in (aligned if run.tier == "thorough" else aligned[::2]):
             for d in (1, 2, 131072, 131073, 2 ** 20):
                 yield f"objbin {kind} {s} {s + d}"
+    # the same on objects built on a sequence chunk that starts beyond the first bin boundaries: the stored bin is the
+    # bin of the CHROMOSOME span (queries bin chromosome coordinates), not of the chunk-relative one
+    for kind in ("tx", "feat", "gene", "fcoll"):
+        for cs in (131072, 131072 * 3 + 17, 2 ** 20 - 500, 2 ** 23):
+            for (ds, ln, pad) in ((0, 1, 50), (5, 700, 100), (100, 3000, 0), (40, 131073, 9)):
+                s0 = cs + ds
+                yield f"objbin {kind}@{cs}:{s0 + ln + pad} {s0} {s0 + ln}"
+    # strict / relaxed queries on a collection that lives on a sequence chunk; its bounds may reach beyond the chunk
+    # and members may lie beyond it (in another finest bin than the chunk end) -- the pre-filter must not hide them
+    for _ in range(300 if run.tier == "quick" else 6000):
+        cs = rng.choice([131072, 200000, 2 ** 20 - 3000, 2 ** 20, 2 ** 23 + 77])
+        clen = rng.choice([2000, 30000, 60000])
+        ce = cs + clen
+        bs = cs - rng.choice([0, 0, 500]) if cs > 500 else cs
+        be = ce + rng.choice([0, 0, 1000, 140000, 500000])
+        kids = []
+        for _c in range(rng.randint(1, 4)):
+            where = rng.random()
+            if where < 0.5:
+                base = rng.randint(bs, max(bs, ce - 10))
+            else:
+                base = rng.randint(bs, max(bs, be - 10))
+            k = rng.choice([1, 1, 2])
+            spans, pos = [], base
+            for _m in range(k):
+                ln = rng.choice([1, 300, 2500])
+                if pos + ln > be:
+                    break
+                spans.append((pos, pos + ln))
+                pos += ln + rng.choice([0, 400, 131072])
+            if spans:
+                kids.append((rng.choice("gf"), spans))
+        if not kids:
+            continue
+        for _q in range(3):
+            qs = rng.choice([bs, cs, rng.randint(bs, be - 1), max(bs, ce - rng.choice([600, 3000, 10000]))])
+            qe = rng.choice([be, ce, rng.randint(qs + 1, be), min(be, ce + rng.choice([1, 2544, 131072, 400000]))])
+            if not (bs <= qs < qe <= be):
+                continue
+            cw = rng.choice("011")
+            run.count("bqueryk:" + ("strict" if cw == "1" else "relaxed"))
+            desc = " ".join(f"{k} {len(sp)} " + " ".join(f"{s} {e}" for s, e in sp) for k, sp in kids)
+            yield f"bqueryk {cs} {ce} {bs} {be} {cw} {qs} {qe} {len(kids)} {desc}"
     # end-to-end position queries: multi-member children whose members sit in different bins, query windows
     # in and around the gaps (the pre-filter looks at the members' bins, the answer at the child's span)
     for _ in range(400 if run.tier == "quick" else 8000):
